@@ -252,9 +252,15 @@ def run_case(case, work, rec):
     if case["kind"] == "geom":
         cli_vs_api(case, work, rec, m, path, digest, rng)
     vols = {}
+    jobs_default = []
     if case["kind"] == "geom":
         reuse_instance(case, work, rec, m, path, digest, rng, vols)
     jobs = []
+    if case["kind"] == "geom":
+        # an explicit normal together with the default position: the plane through the domain centre along THAT normal
+        for n in range(3):
+            centre = m.geo_low[n] + (m.geo_high[n] - m.geo_low[n]) / 2
+            jobs_default.append((n, centre))
     if case["kind"] == "split":
         for n, pos in ((2, m.geo_low[2] + 0.3 * (m.geo_high[2] - m.geo_low[2])),):
             jobs.append((n, ("split", pos), None, list(m.names)))
@@ -344,6 +350,45 @@ def run_case(case, work, rec):
                           witness={"config": descr, "differences": probs[:4]})
         else:
             rec.ok(key, case["kind"] == "split" or (L >= 1 and not cls.startswith("centre")))
+    for n, centre in jobs_default:
+        default_position(rec, work, m, path, digest, vols, n, centre)
+
+
+def default_position(rec, work, m, path, digest, vols, n, centre):
+    from amr_kitchen.mandoline import Mandoline
+    finest = m.nlevels - 1
+    if finest not in vols:
+        vols[finest] = slicemodel.LevelVolumes(m, finest)
+    key = (digest, "default-position", n)
+    descr = f"normal={'xyz'[n]} default position (domain centre {centre!r}) fields=['rnd', 'a{'xyz'[n]}']"
+    fl = ["rnd", "a" + "xyz"[n]]
+    out = os.path.join(work, "slice_default")
+    if os.path.exists(out):
+        shutil.rmtree(out)
+    poison.set_poison(np.nan)
+    pools.CTL.reset(mode="inproc", seed=7)
+    try:
+        Mandoline(path, fields=list(fl), serial=True, verbose=0).slice(normal=n, outfile=out, fformat="plotfile")
+    except Exception as e:
+        if on_box_face(m, finest, n, centre) or level_not_met(m, finest, n, centre):
+            rec.ok(key, False)
+        else:
+            rec.violation(f"plotfile-format slice raised {type(e).__name__}: {descr}", key=key, witness={"exc": repr(e)[:300]})
+        return
+    rec.count("default_position_slices")
+    if on_box_face(m, finest, n, centre) or level_not_met(m, finest, n, centre) or slicemodel.too_close_to_centre(m, finest, n, centre):
+        # which box represents a footprint on a shared face is open; a plane through cell centres needs no interpolation
+        if taste_ok(out):
+            rec.ok(key, False)
+        else:
+            rec.violation(f"slice at the default position wrote a plotfile validation rejects: {descr}", key=key)
+        return
+    probs, nb, nd, nu = judge(out, m, vols[finest], n, centre, finest, fl)
+    if probs:
+        rec.violation(f"slice plotfile is not the plane data ({probs[0][:150]}): {descr}", key=key,
+                      witness={"config": descr, "differences": probs[:4]})
+    else:
+        rec.ok(key, True)
 
 
 def reuse_instance(case, work, rec, m, path, digest, rng, vols):
